@@ -92,7 +92,9 @@ var c23Muts = []string{"none", "none", "none", "none", "none", "none", "none", "
 	"reorder-acct", "reorder-stor", "extra-acct", "extra-stor", "extra-junk", "addr-upper",
 	"missing-acct", "missing-stor", "other-account-nodes", "other-account", "other-slot-nodes", "other-slot-key", "absent-slot",
 	"wrong-address", "nonce", "balance", "storagehash", "codehash", "message", "message-field", "malformed", "two-storage-proofs", "no-storage-proof",
-	"node-bitflip"}
+	"node-bitflip", "short-suffix", "short-suffix", "short-suffix", "long-suffix", "hash-prefix", "empty-value"}
+
+var c23ShortLens = []int{1, 2, 3, 8, 16, 20, 31}
 
 func genC23(t *rapid.T) c23Case {
 	c := c23Case{Router: rapid.SampledFrom([]string{"eth", "eth", "quorum"}).Draw(t, "router")}
@@ -438,6 +440,19 @@ func runC23(ctx *ev.Ctx, c c23Case) {
 		}
 	}
 	vals[c.Target] = val
+	// neighbour slots of the same contract whose values are merely RELATED to keccak(message)
+	// (the family of pevm.TestC23): last n bytes of the hash, 0x01||hash (33 bytes), first 16 bytes
+	// with a zero tail, the empty string. Genuine proofs of these slots exist.
+	nbShort := len(vals)
+	for _, n := range c23ShortLens {
+		vals = append(vals, append([]byte(nil), hash[32-n:]...))
+	}
+	nbLong := len(vals)
+	vals = append(vals, append([]byte{1}, hash...))
+	nbPrefix := len(vals)
+	vals = append(vals, append(append([]byte(nil), hash[:16]...), make([]byte, 16)...))
+	nbEmpty := len(vals)
+	vals = append(vals, []byte{})
 	stA := buildState(ccmc, vals, c.NAccts, 0)
 	stB := buildState(ccmc, vals, c.NAccts, 0xB0)
 
@@ -504,6 +519,20 @@ func runC23(ctx *ev.Ctx, c c23Case) {
 			return
 		}
 		effSlot = mod(c.Target+1+mod(c.MutA, c.NSlots-1), c.NSlots)
+		p = stA.honestProof(ccmc, stA.ccmcAcct, effSlot)
+	case "short-suffix": // genuine proof of a slot holding only the last n bytes of keccak(message)
+		i := mod(c.MutA, len(c23ShortLens))
+		effSlot = nbShort + i
+		p = stA.honestProof(ccmc, stA.ccmcAcct, effSlot)
+		ctx.Label(fmt.Sprintf("mut:short-suffix:%d", c23ShortLens[i]))
+	case "long-suffix": // 33-byte value ending in the hash
+		effSlot = nbLong
+		p = stA.honestProof(ccmc, stA.ccmcAcct, effSlot)
+	case "hash-prefix": // first half of the hash, zero tail (a full 32-byte word)
+		effSlot = nbPrefix
+		p = stA.honestProof(ccmc, stA.ccmcAcct, effSlot)
+	case "empty-value":
+		effSlot = nbEmpty
 		p = stA.honestProof(ccmc, stA.ccmcAcct, effSlot)
 	case "absent-slot": // valid proof that a slot does not exist
 		ak := crypto.Keccak256Hash([]byte("absent"))
